@@ -60,24 +60,24 @@ Qed.
 (* antenna system: every entry of all_waveforms is the (linear) front end applied to the sum of
    ALL received signals on its grid *)
 Lemma s_all_pure_are_sums : forall sc sigs l,
-  noisy (ant_cfg sc) = false -> fe_taps sc = [] ->
+  noisy (ant_cfg sc) = false -> fe_taps sc = [] -> fe_shift sc = None ->
   Forall (fun s => wf_window (s_times s)) l ->
   Forall2 sig_eq (map (fun s => s_fw_pure sc sigs (s_times s)) l)
     (map (fun s => mkSig (s_times s) (map (fun t => sum_at sigs t * fe_scale sc) (s_times s))) l).
 Proof.
-  intros sc sigs l Hn Ht Hw. induction Hw as [|s l Hs Hw IH]; simpl; constructor; auto.
-  destruct (sys_full_waveform_is_sum_lemma sc (s_fresh sigs) (s_times s) Hn Ht Hs) as (_ & E).
+  intros sc sigs l Hn Ht Hsh Hw. induction Hw as [|s l Hs Hw IH]; simpl; constructor; auto.
+  destruct (sys_full_waveform_is_sum_lemma sc (s_fresh sigs) (s_times s) Hn Ht Hsh Hs) as (_ & E).
   rewrite s_fw_noiseless in E by exact Hn. exact E.
 Qed.
 
 Lemma sys_all_waveforms_are_sums_lemma : forall sc h,
-  noisy (ant_cfg sc) = false -> invalidate (ant_cfg sc) = true -> fe_taps sc = [] ->
+  noisy (ant_cfg sc) = false -> invalidate (ant_cfg sc) = true -> fe_taps sc = [] -> fe_shift sc = None ->
   Forall (fun s => wf_window (s_times s)) (received h) ->
   Forall2 sig_eq (snd (s_all_waveforms sc (s_final sc s_init h)))
     (map (fun s => mkSig (s_times s) (map (fun t => sum_at (received h) t * fe_scale sc) (s_times s)))
          (received h)).
 Proof.
-  intros sc h Hn Hi Ht Hw.
+  intros sc h Hn Hi Ht Hsh Hw.
   destruct (s_final_spec sc h s_init Hn Hi (SysInv_init sc)) as (I & S).
   destruct (s_all_waveforms_spec sc _ Hn Hi I) as (A1 & _).
   rewrite A1, S. fold (received h). unfold s_all_pure.
@@ -142,7 +142,7 @@ Proof.
 Qed.
 
 Example system_example :
-  let sc := mkSConfig (cfg_plain true) 3 2 [] in
+  let sc := mkSConfig (cfg_plain true) 3 2 None [] in
   wf_window [4;5;6;7] /\
   map Qred (s_values (snd (s_full_waveform sc (mkS (fresh [f9_s1; f9_s2]) [] [] []) [4;5;6;7]))) = [6;14;12;10] /\
   lead_in_n sc [4;5;6;7] = 4%Z.
@@ -154,7 +154,7 @@ Qed.
 (* a delay line (3 samples) behind gain 2 with a lead-in of 6: hypotheses of sys_fir_waveform hold on a
    window that starts inside the first signal, and the waveform is the delayed doubled sum *)
 Example fir_system_example :
-  let sc := mkSConfig (cfg_plain true) 6 2 [0;0;0;1] in
+  let sc := mkSConfig (cfg_plain true) 6 2 None [0;0;0;1] in
   let ts := [4;5;6;7] in
   wf_window ts /\ uniform ts /\
   (length (fe_taps sc) <= S (Z.to_nat (lead_in_n sc ts)))%nat /\
@@ -165,6 +165,25 @@ Proof.
   - unfold wf_window. split; [|simpl; lia]. simpl. repeat split; reflexivity.
   - intros j Hj. simpl in Hj. do 4 (destruct j as [|j]; [vm_compute; reflexivity|]). lia.
   - vm_compute. lia.
+  - vm_compute. reflexivity.
+  - vm_compute. reflexivity.
+Qed.
+
+(* gain 2 followed by a cable delay of 3 (= 3 samples of the window) behind a lead-in of 6: the hypotheses of
+   sys_delay_waveform hold and the waveform is the doubled sum 3 time units earlier *)
+Example delay_system_example :
+  let sc := mkSConfig (cfg_plain true) 6 2 (Some 3) [] in
+  let ts := [4;5;6;7] in
+  wf_window ts /\ uniform ts /\ (3 <= Z.to_nat (lead_in_n sc ts))%nat /\
+  3 == nat_Q 3 * (t_second ts - t_first ts) /\
+  map Qred (s_values (snd (s_full_waveform sc (mkS (fresh [f9_s1; f9_s2]) [] [] []) ts))) = [2;4;6;6] /\
+  map Qred (map (fun t => sum_at [f9_s1; f9_s2] (t - 3) * 2) ts) = [2;4;6;6].
+Proof.
+  cbn zeta. split; [|split; [|split; [|split; [|split]]]].
+  - unfold wf_window. split; [|simpl; lia]. simpl. repeat split; reflexivity.
+  - intros j Hj. simpl in Hj. do 4 (destruct j as [|j]; [vm_compute; reflexivity|]). lia.
+  - vm_compute. lia.
+  - vm_compute. reflexivity.
   - vm_compute. reflexivity.
   - vm_compute. reflexivity.
 Qed.
